@@ -30,7 +30,7 @@ def header_value(rng):
     return v.strip() or 'v'
 
 
-def gen_rule_file(rng, gen, multiline_string=False):
+def gen_rule_file(rng, gen, multiline_string=False, arith=True):
     """-> (text bytes, header dict, original query text, tokens, has_multiline_string)"""
     crlf = rng.random() < 0.35
     eol = '\r\n' if crlf else '\n'
@@ -49,7 +49,7 @@ def gen_rule_file(rng, gen, multiline_string=False):
                 ml = True
                 break
     # arithmetic in the condition, so that a wrapped line can begin with an operator character (`*`, `/`, `-`)
-    if rng.random() < 0.3 and 'SELECT' in toks:
+    if arith and rng.random() < 0.3 and 'SELECT' in toks:
         si = len(toks) - 1 - toks[::-1].index('SELECT')
         arith = ['6', '/', '2', '*', '3', '-', '1', '==', '8']
         toks[si:si] = (['&&'] if 'WHERE' in toks[:si] else ['WHERE']) + arith
@@ -268,7 +268,7 @@ def check_c17(tier, seed, res, work):
         bad_positions = set(rng.sample(range(nrules), rng.choice([0, 0, 1, 1, 2]) if nrules > 2 else rng.choice([0, 1])))
         rules = []
         for i in range(nrules):
-            text, hdr, qtext, toks, ml, crlf = gen_rule_file(rng, gen)
+            text, hdr, qtext, toks, ml, crlf = gen_rule_file(rng, gen, arith=False)   # `/` is outside the evaluator model's fragment
             if i in bad_positions:
                 kind = rng.choice(['syntax', 'syntax', 'eval'])
                 if kind == 'syntax':
@@ -383,7 +383,9 @@ def check_c17(tier, seed, res, work):
                         for e_ in t.split('|'):
                             f, ln, sn = e_.split(':')
                             mset[(unhx(f).decode(), int(ln))] += 1
-                if mset is not None and got is not None and mset != got:
+                if m_entries[i].get('infrag') == '0':
+                    stats['ci_entries_out_of_fragment'] += 1        # the evaluator model does not cover this query: not compared
+                elif mset is not None and got is not None and mset != got:
                     res.tie_broken.append('correspondence (ci): entry %d model=%s impl=%s query=%r' % (i, str(mset)[:100], str(got)[:100], queries[i][1][:400]))
         else:
             results = report.get('runs', [{}])[0].get('results') or []
